@@ -47,6 +47,10 @@ type Op struct {
 	Read  byte // decoder side: 'T' ReadToken, 'V' ReadValue, 'S' SkipValue
 	// Delegate: call json.MarshalEncode(e, Inner{}) / json.UnmarshalDecode(d, &Inner{}), i.e. a nested user call
 	Delegate bool
+	// Via selects what the nested call is handled by: 0 = Inner's own MarshalJSONTo / UnmarshalJSONFrom method,
+	// 'f' = a caller-supplied function for InnerFn (InnerFuncs must be among the call's options),
+	// 'j' = InnerJ's MarshalJSON / UnmarshalJSON method, 'p' = no user code at all (a plain string)
+	Via byte
 }
 
 // Inner is a value whose own MarshalJSONTo / UnmarshalJSONFrom handles exactly one value.
@@ -54,6 +58,19 @@ type Inner struct{}
 
 func (Inner) MarshalJSONTo(e *jsontext.Encoder) error      { return e.WriteToken(jsontext.String("inner")) }
 func (*Inner) UnmarshalJSONFrom(d *jsontext.Decoder) error { return d.SkipValue() }
+
+// InnerFn has no methods: it is handled by the functions of InnerMarshalers / InnerUnmarshalers.
+type InnerFn struct{}
+
+// InnerJ uses the []byte-based methods.
+type InnerJ struct{}
+
+func (InnerJ) MarshalJSON() ([]byte, error) { return []byte(`"inner"`), nil }
+func (*InnerJ) UnmarshalJSON([]byte) error  { return nil }
+
+// InnerMarshalers / InnerUnmarshalers handle InnerFn through coder-taking functions.
+var InnerMarshalers = json.MarshalToFunc(func(e *jsontext.Encoder, _ InnerFn) error { return e.WriteToken(jsontext.String("inner")) })
+var InnerUnmarshalers = json.UnmarshalFromFunc(func(d *jsontext.Decoder, _ *InnerFn) error { return d.SkipValue() })
 
 // Script is the behaviour of a coder-taking method or function.
 type Script struct {
@@ -97,7 +114,16 @@ func (s *Script) RunEnc(e *jsontext.Encoder) error {
 	for _, op := range s.Ops {
 		var err error
 		if op.Delegate {
-			err = json.MarshalEncode(e, Inner{})
+			switch op.Via {
+			case 'f':
+				err = json.MarshalEncode(e, InnerFn{})
+			case 'j':
+				err = json.MarshalEncode(e, InnerJ{})
+			case 'p':
+				err = json.MarshalEncode(e, "inner")
+			default:
+				err = json.MarshalEncode(e, Inner{})
+			}
 		} else if op.Raw != nil {
 			err = e.WriteValue(op.Raw)
 		} else {
@@ -121,7 +147,16 @@ func (s *Script) RunDec(d *jsontext.Decoder) error {
 	for _, op := range s.Ops {
 		var err error
 		if op.Delegate {
-			err = json.UnmarshalDecode(d, new(Inner))
+			switch op.Via {
+			case 'f':
+				err = json.UnmarshalDecode(d, new(InnerFn))
+			case 'j':
+				err = json.UnmarshalDecode(d, new(InnerJ))
+			case 'p':
+				err = json.UnmarshalDecode(d, new(any))
+			default:
+				err = json.UnmarshalDecode(d, new(Inner))
+			}
 		}
 		switch op.Read {
 		case 'T':
